@@ -226,7 +226,7 @@ func init() {
 		c.Rule("C18-R6", "PRE-V3 DBI creation")
 		c.Rule("C18-R7", "CANCEL")
 		ruleOneTxn(c, "C18-R1", fnLoadOnce, fnLoadTxn, []string{fnMainToSh, fnShToMain, fnStratUpd, "lmdbenv.DBIExists", "(*lmdb.Txn).OpenDBI"})
-		ruleErrFlow(c, "C18-R2", fnLoadTxn, fnMainToSh, fnShToMain, fnStratUpd, fnIterUpd, fnIterUpd+"$1", fnEmptyPut, "lmdbenv/strategy.doPut", "lmdbenv/strategy.setNewVal", "lmdbenv/strategy.iterBoth", "syncer.(*NativeIterator).Next", fnReadDBI)
+		ruleErrFlow(c, "C18-R2", fnLoadTxn, fnMainToSh, fnShToMain, fnStratUpd, fnIterUpd, fnIterUpd+"$callback", fnEmptyPut, "lmdbenv/strategy.doPut", "lmdbenv/strategy.setNewVal", "lmdbenv/strategy.iterBoth", "syncer.(*NativeIterator).Next", fnReadDBI)
 		ruleLoadErrReturned(c, "C18-R2")
 		ruleVersionGates(c, "C18-R3")
 		t := BuildMergeTable(c, "syncer.(*NativeIterator).Merge")
